@@ -278,9 +278,10 @@ def module_level_caches(repo, col, shorts):
 # ---------------------------------------------------------------------
 # generic lints with zero expected instances
 # ---------------------------------------------------------------------
-def swapped_arguments(repo, col):
+def swapped_arguments(repo, col, shorts=None):
     """A positional argument whose name is that of a *different* parameter of
-    the callee (and not of its own position)."""
+    the callee (and not of its own position).  `shorts` restricts the calling
+    modules (the property's anchor files)."""
     rule = "E-AXIS.arg-name"
     n = 0
     by_name = {}
@@ -305,18 +306,31 @@ def swapped_arguments(repo, col):
             return a.attr
         return None
     for m in repo.modules.values():
+        if shorts is not None and m.short not in shorts:
+            continue
+        repo.consulted.add(m.name)
         for fn in m.functions.values():
             for c in calls_in(fn.node):
                 nm = (call_name(c) or "").split(".")[-1]
                 if nm == "cls" and fn.cls is not None:
                     nm = fn.cls.name
                 cands = by_name.get(nm, [])
-                if len(cands) != 1 or len(c.args) < 2:
+                if not cands or len(c.args) < 2:
+                    continue
+
+                def plist(f_):
+                    ps = list(f_.params)
+                    if ps and ps[0] in ("self", "cls"):
+                        ps = ps[1:]
+                    return ps
+                # several definitions of one name (an interface and its
+                # implementations) count when they agree on the positions
+                k_ = len(c.args)
+                heads = {tuple(plist(f_)[:k_]) for f_ in cands}
+                if len(heads) != 1:
                     continue
                 callee = cands[0]
-                params = callee.params
-                if params and params[0] in ("self", "cls"):
-                    params = params[1:]
+                params = plist(callee)
                 for i, a in enumerate(c.args):
                     if i >= len(params) or isinstance(a, ast.Starred):
                         break
@@ -872,8 +886,9 @@ def shard_protocol_guards(repo, col):
 
     def _is_length(name):
         vs = [d.value for d in cdefs.get(name, []) if d.value is not None]
-        return bool(vs) and all(isinstance(v, ast.Call) and
-                                call_name(v) == "len" for v in vs)
+        return bool(vs) and all(any(isinstance(x, ast.Call) and
+                                    call_name(x) == "len"
+                                    for x in walk_local(v)) for v in vs)
     pads = [s for s in stmts_of(cl.node) if isinstance(s, ast.While)
             and _oriented(s.test) is not None]
     if not pads:
@@ -901,8 +916,9 @@ def shard_protocol_guards(repo, col):
             for b in (a, a.flipped()):
                 lb = expand(b.left, ptab)
                 if (isinstance(b.left, ast.Name) and _is_length(b.left.id)
-                        or (isinstance(lb, ast.Call)
-                            and call_name(lb) == "len")) and \
+                        or any(isinstance(x, ast.Call) and
+                               call_name(x) == "len"
+                               for x in walk_local(lb))) and \
                         b.op in ("<", "<=") and \
                         "minishard_bits" in norm(expand(b.right, ptab)):
                     too_many = True
